@@ -28,7 +28,10 @@ def main():
     out = {"argv": [b2s(os.fsencode(a)) for a in sys.argv[1:]],
            "env": {b2s(os.fsencode(k)): b2s(os.fsencode(v)) for k, v in os.environ.items() if k.startswith("C30_")},
            "stdin": stdin_data, "stdin_file": fd_target(0), "stdout_file": fd_target(1),
-           "stderr_file": fd_target(2)}
+           "stderr_file": fd_target(2),
+           # each runner gives the tool its own HOME / TMPDIR: reported so that an expansion the tool ASKED for
+           # (shellQuote: false on $HOME, ~) can be compared up to their values
+           "home": b2s(os.fsencode(os.environ.get("HOME", ""))), "tmpdir": b2s(os.fsencode(os.environ.get("TMPDIR", "")))}
     with open("c30_dump.json", "w") as f:
         json.dump(out, f)
     sys.stdout.write("C30-OUT\n")
